@@ -1,12 +1,14 @@
 import TaskModel.Load.RootRef
+import TaskModel.Load.DefaultsLemmas
 import TaskModel.Gen.Codes
 import Driver.Util
-import TaskModel.Resolve.Table
+import TaskModel.Resolve.OfLoad
 /-!
 Driver glue for the `load` domain.
 
     load.tree <probe stride, 0 = none> <root> <nfiles> file*
-      file    := <id> <version> <dotenv 0/1> <dir> <vars> <vars(env)> <ninc> include* <ntask> task*
+      file    := <id> <version> <dotenv 0/1> <silent 0/1> <method> <run> <set mask> <shopt mask> <output>
+                 <dir> <vars> <vars(env)> <ninc> include* <ntask> task*
       dir     := <n> <seg>*
       vars    := <n> (<key> <val>)*
       names   := <n> <hexname>*
@@ -17,7 +19,8 @@ answers `err <class> <code>` or
 
     ok <n> taskdump* V <varsdump> E <varsdump>
       taskdump := T <hexname> C <ncmd> (<hextask|-> <sh>)* D <names> A <names> <internal> <dirdump> N <hexns> L <loc>
-                  AT <nattr> <attr>* TV <varsdump> IV <varsdump> XV <varsdump>
+                  AT <nattr> <attr>* EF <silent> <method> <run> <set> <shopt> TV <varsdump> IV <varsdump> XV <varsdump>
+    the whole followed by  FD <silent> <method> <run> <set> <shopt> O <output>  (the root's defaults after setupDefaults)
     followed, when a probe was asked for, by  PR <m> (<idx> <dirdump> <nseen> (<key> <val|->)*)*
       dirdump  := a|r <n> <seg>*
       varsdump := <n> (<key> <val> <dirdump>)*
@@ -63,9 +66,12 @@ def task (loc : Nat) : P Task := do
          ns := [], loc, incVars := [], incTfVars := [] }
 
 def file : P (Nat × Taskfile) := do
-  let id ← nat; let version ← nat; let dotenv ← bool; let fdir ← dirSegs
+  let id ← nat; let version ← nat; let dotenv ← bool
+  let silent ← nat; let method ← nat; let run ← nat; let set ← nat; let shopt ← nat; let output ← nat
+  let fdir ← dirSegs
   let vs ← vars; let env ← vars; let incs ← many includeDecl; let tasks ← many (task id)
-  pure (id, { version, dotenv, fdir, vars := vs, env, tasks, includes := incs })
+  pure (id, { version, dotenv, fdir, vars := vs, env, tasks, includes := incs,
+              defaults := { silent, method, run, set, shopt }, output })
 
 /-! output -/
 
@@ -82,10 +88,11 @@ def seen (tf : Taskfile) (t : Task) (k : Nat) : Option Nat :=
   let layers := [tf.env, tf.vars, t.incVars, t.incTfVars, t.vars]
   layers.foldl (fun acc l => match Vars.get k l with | some v => some v.val | none => acc) none
 
-def showTask (t : Task) : List String :=
+def showTask (root : Defaults) (t : Task) : List String :=
   ["T", hexName t.name, "C", toString t.cmds.length] ++ t.cmds.flatMap (fun c => [hexName c.task, toString c.sh])
   ++ ["D"] ++ showNames t.deps ++ ["A"] ++ showNames t.aliases ++ [showBool t.internal] ++ showDir t.dir
   ++ ["N", hexName t.ns, "L", toString t.loc, "AT"] ++ showNats t.attrs
+  ++ ["EF"] ++ (effective root t.attrs).map toString
   ++ ["TV"] ++ showVars t.vars ++ ["IV"] ++ showVars t.incVars ++ ["XV"] ++ showVars t.incTfVars
 
 /-- the probe of the `idx`-th merged task: compiled working directory and variables seen -/
@@ -103,12 +110,13 @@ def errCode (e : Err) : Nat :=
   | .conflict => look "TaskNameFlattenConflictError"
   | .cycle => look "TaskfileCycleError"
   | .versionCheck => look "TaskfileVersionCheckError"
+  | .decode => look "TaskfileDecodeError"
   | .missing | .version | .dotenv => 1
   | .internal => 0
 
 def errName : Err → String
   | .conflict => "conflict" | .cycle => "cycle" | .missing => "missing" | .version => "version"
-  | .dotenv => "dotenv" | .versionCheck => "versioncheck" | .internal => "internal"
+  | .dotenv => "dotenv" | .versionCheck => "versioncheck" | .decode => "decode" | .internal => "internal"
 
 def allKeys (fm : FileMap) : List Nat :=
   let ks := fm.flatMap (fun f => f.2.vars.keys ++ f.2.env.keys ++ f.2.tasks.flatMap (·.vars.keys)
@@ -124,8 +132,10 @@ def doTree (args : List String) : Option String := do
   | .ok tf =>
     let keys := allKeys fm
     let ps := if probe = 0 then [] else probes probe tf keys 0 tf.tasks
-    some (" ".intercalate (["ok", toString tf.tasks.length] ++ tf.tasks.flatMap showTask
+    let fd := finalDefaults tf.defaults
+    some (" ".intercalate (["ok", toString tf.tasks.length] ++ tf.tasks.flatMap (showTask tf.defaults)
       ++ ["V"] ++ showVars tf.vars ++ ["E"] ++ showVars tf.env
+      ++ ["FD", toString fd.silent, toString fd.method, toString fd.run, toString fd.set, toString fd.shopt, "O", toString tf.output]
       ++ (if probe = 0 then [] else ["PR", toString ps.length] ++ ps.flatMap id)))
 
 /-- `load.refs <root> <nfiles> file*` → `ok <n> (T <key> L <loc> R <names>)*` : the targets
@@ -156,12 +166,17 @@ def doResolve (args : List String) : Option String := do
   match load fm root with
   | .error e => some s!"err {errName e} {errCode e}"
   | .ok tf =>
-    let toStr (n : Name) : List Char := n.map Char.ofNat
-    let tbl : List TaskModel.Resolve.Entry := tf.tasks.map (fun t => { name := toStr t.name, aliases := t.aliases.map toStr })
+    let toStr := TaskModel.Resolve.toStr
+    let tbl : List TaskModel.Resolve.Entry := TaskModel.Resolve.ofLoad tf
     let nameAt (i : Nat) : String := match tf.tasks[i]? with | some t => hexName t.name | none => "?"
     let answer (rq : Name) : String :=
       match TaskModel.Resolve.resolve tbl (toStr rq) with
-      | .found i ws => " ".intercalate (["found", nameAt i, toString ws.length] ++ ws.map hexChars)
+      | .found i ws =>
+        -- what a command `{{range .MATCH}}<{{.}}>{{end}}` (shell command 9000) of that task renders to
+        let rendered : String := match tf.tasks[i]? with
+          | some t => if t.cmds.any (fun c => c.task.isEmpty && c.sh == 9000) then hexChars (ws.flatMap (fun w => '<' :: w ++ ['>'])) else "-"
+          | none => "?"
+        " ".intercalate (["found", nameAt i, toString ws.length] ++ ws.map hexChars ++ ["R", rendered])
       | .conflict is => " ".intercalate (["conflict", toString is.length] ++ sortStrs (is.map nameAt))
       | .notFound => "notfound"
     some (" | ".intercalate ("ok" :: reqs.map answer))
